@@ -238,6 +238,15 @@ def parse_model(line):
     return d['outcome'], ret, enq, closed
 
 
+def parse_drops(line):
+    """the ghost record `drop=w:i:h,...` of the first run of a model line"""
+    first = line.split(' || ')[0]
+    for p in first.split():
+        if p.startswith('drop='):
+            return [tuple(map(int, x.split(':'))) for x in p[5:].split(',') if x]
+    return []
+
+
 def run_chain(n, runs, retry=True, extra=0):
     """consecutive run() calls on ONE pool of fake workers; runs = [(inputs, pre, script), ...]. Returns the list of result dicts."""
     env = pool = None
